@@ -341,4 +341,9 @@ class ScatterPlugin(PrimitiveLeafPlugin):
     """IR-first lowering for ``lax.scatter`` (element-wise variant)."""
 
     def lower(self, ctx: LoweringContextProtocol, eqn: Any) -> None:
+        if getattr(eqn, "params", {}).get("update_jaxpr") is not None:
+            # scatter_apply (x.at[i].apply(f)): the update function is not lowered
+            raise NotImplementedError(
+                "scatter with a custom update function (scatter_apply) is not supported"
+            )
         lower_scatter_common(ctx, eqn, reduction="none")
